@@ -287,7 +287,8 @@ def run_stage(ctx, case, faults=False):
     tree, prof = build_stats(stats, sizes)
     fixed = case.get('fixed', False)
     exact = True if fixed else ctx.flag('exact_penetrance')
-    nproc = 1 + ctx.choice('n_processors-1', 3)
+    nproc = case['nproc'] if 'nproc' in case \
+        else 1 + ctx.choice('n_processors-1', 3)
     gl = None
     if not fixed and ctx.flag('gene_list'):
         gl = ['g0', 'g2', 'g4', 'not_a_reference_gene']
@@ -384,7 +385,8 @@ def run_cli(ctx, case, faults=True):
     plant(out, prior, 'markers')
     before = open(out, 'rb').read() if os.path.exists(out) else None
     clobber = ctx.flag('clobber')
-    nproc = 1 + ctx.choice('n_processors-1', 3)
+    nproc = case['nproc'] if 'nproc' in case \
+        else 1 + ctx.choice('n_processors-1', 3)
     args = dict(CLI_DEFAULTS)
     args.update(precomputed_path_list=[stats],
                 output_dir=os.path.join(root, 'out'),
